@@ -873,6 +873,11 @@ def build_summary(eng, fi, clsbind, inline=frozenset(), funargs=()):
             for f in common - facts:
                 if f != L and f[0] in ("has", "ok", "type", "eq", "ret", "cmp", "integral", "truthy", "falsy", "keys", "keysin", "in", "forall"):
                     imps.add(("imp", L, f))
+        # conditional postconditions the paths took over from their own callees (a checker that
+        # hands the whole job to another one) hold when they hold on every path
+        carried = [frozenset(f for f in p.facts if f[0] == "imp" and is_param_rooted(f)) for p in ps]
+        if carried:
+            imps |= frozenset.intersection(*carried)
         sm.groups[rk] = {"facts": facts | imps, "value": value, "rettype": rettype, "retfacts": retfacts, "n": len(ps)}
     sm.npaths = len(paths)
     return sm
